@@ -381,4 +381,46 @@ def sampleHist (o : Ops α) (toF : Nat → α) (fix : Bool) (P : Params α) :
   | p, l :: ls =>
     (sampleStep o toF fix P p l).1 :: sampleHist o toF fix P (sampleStep o toF fix P p l).2 ls
 
+/-! ### the grammar path as driven by the real grammar
+
+  `acc` is the set of token ids the grammar accepts at this point (the harness obtains it from the
+  real llama.cpp grammar by probing `Apply`).  `Grammar.Apply` sets the value of every rejected
+  token to `-Inf` and leaves the others alone.  Fast path: the first pick is accepted (and its value
+  is not `-Inf`).  Slow path: a FRESH token list from the original logits is masked and sampled
+  again with a NEW random number — which is exactly `Sample` on the masked logits. -/
+
+def maskFrom (o : Ops α) (acc : List Nat) : Nat → List α → List α
+  | _, [] => []
+  | i, v :: vs => (if acc.contains i then v else o.negInf) :: maskFrom o acc (i + 1) vs
+
+/-- the logits after the grammar mask -/
+def maskLogits (o : Ops α) (acc : List Nat) (logits : List α) : List α := maskFrom o acc 0 logits
+
+/-- one `Sample` call with a grammar: result, generator state afterwards, numbers drawn -/
+def sampleStepG (o : Ops α) (toF : Nat → α) (fix : Bool) (P : Params α) (p : Pcg)
+    (logits : List α) (acc : List Nat) : Except Err Nat × Pcg × Nat :=
+  match logits with
+  | [] => (.error .noLogits, p, 0)
+  | _ =>
+    let c1 := consumes o fix P logits
+    let r1 := if c1 then toF (pcgFloat24 p).1 else toF 0
+    let p1 := if c1 then (pcgFloat24 p).2 else p
+    let d1 := if c1 then 1 else 0
+    match sampleCore o fix P r1 (mkTokens logits) with
+    | .error e => (.error e, p1, d1)
+    | .ok t =>
+      if acc.contains t.id && !o.beq t.val o.negInf then (.ok t.id, p1, d1)
+      else
+        let s2 := sampleStep o toF fix P p1 (maskLogits o acc logits)
+        (s2.1, s2.2, d1 + (if consumes o fix P (maskLogits o acc logits) then 1 else 0))
+
+/-- a history of grammar-constrained calls (the accepted sets are data: the grammar's own state
+    machine is llama.cpp's and is not modelled) -/
+def sampleHistG (o : Ops α) (toF : Nat → α) (fix : Bool) (P : Params α) :
+    Pcg → List (List α × List Nat) → List (Except Err Nat × Nat)
+  | _, [] => []
+  | p, (l, acc) :: ls =>
+    let s := sampleStepG o toF fix P p l acc
+    (s.1, s.2.2) :: sampleHistG o toF fix P s.2.1 ls
+
 end OllamaVerif.Sampler
